@@ -25,9 +25,9 @@ Definition ex_g : glyph :=
 Definition ex_code : list N :=
   match enc_header ex_g (U 500) (U 600), enc_args 0 0 (g_cmds ex_g) with
   | Some h, Some _ =>
-      (* body: one legal choice of edges, written out *)
+      (* body: the bytes the implementation emits for this glyph *)
       h ++ [19;160; 149;22; 159;159;7; 144;146;144; 255;0;4;128;0; 5;
-            149;149;148;154;31; 164;4; 140;141;141;141;143;145;142;140;24; 20;7; 14]%N
+            149;149; 255;0;8;128;0; 154;31; 164;4; 140;141;141;141;143;145;142;140;24; 20;7; 14]%N
   | _, _ => []
   end.
 
